@@ -38,6 +38,12 @@ var ruleRuneWrite = &Rule{
 			key := fmt.Sprintf("%s: %s #%d", fnName(fn), what, ord.next(fnName(fn)))
 			cv, ok := v.(*ssa.Convert)
 			if !ok {
+				// a byte handed back by a helper of the package is judged
+				// where the helper makes it (`b, ok := l.scanHex()`)
+				if why := p.byteMadeFromRune(v, 0); why != "" {
+					out.viol(key, p.pos(ins.Pos()), fnName(fn), "the byte written is "+why+": values ≥ 0x80 become a raw (invalid UTF-8) byte instead of the code point")
+					return
+				}
 				out.ok(key, p.pos(ins.Pos()), fnName(fn), "a constant or a byte value")
 				return
 			}
@@ -237,3 +243,70 @@ var ruleComment = &Rule{
 }
 
 func init() { register(ruleComment) }
+
+// byteMadeFromRune: v is a byte that a helper of package parser returns and
+// that the helper narrows from a computed wider integer whose range is not
+// known to lie below 0x80; "" otherwise.
+func (p *Prog) byteMadeFromRune(v ssa.Value, depth int) string {
+	if depth > 3 {
+		return ""
+	}
+	var c *ssa.Call
+	idx := 0
+	switch x := v.(type) {
+	case *ssa.Extract:
+		c, _ = x.Tuple.(*ssa.Call)
+		idx = x.Index
+	case *ssa.Call:
+		c = x
+	case *ssa.Phi:
+		for _, e := range x.Edges {
+			if why := p.byteMadeFromRune(e, depth+1); why != "" {
+				return why
+			}
+		}
+		return ""
+	}
+	if c == nil || c.Call.IsInvoke() {
+		return ""
+	}
+	g := c.Call.StaticCallee()
+	if g == nil || g.Blocks == nil || fnPkgPath(g) != pkgParser {
+		return ""
+	}
+	var judge func(rv ssa.Value, at *ssa.BasicBlock, d int) string
+	judge = func(rv ssa.Value, at *ssa.BasicBlock, d int) string {
+		if d > 4 {
+			return ""
+		}
+		switch y := rv.(type) {
+		case *ssa.Const:
+			return ""
+		case *ssa.Phi:
+			for i, e := range y.Edges {
+				if why := judge(e, y.Block().Preds[i], d+1); why != "" {
+					return why
+				}
+			}
+			return ""
+		case *ssa.Convert:
+			if b, ok := y.X.Type().Underlying().(*types.Basic); ok && (b.Kind() == types.Uint8 || b.Kind() == types.Int8) {
+				return ""
+			}
+			if iv, ok := p.narrowRange(y.X, y.Block(), nil, 0); ok && iv.lo >= 0 && iv.hi < 0x80 {
+				return ""
+			}
+			return "narrowed from a computed " + y.X.Type().String() + " in " + g.Name() + " (" + p.pos(y.Pos()) + ")"
+		}
+		return p.byteMadeFromRune(rv, depth+1)
+	}
+	for _, r := range returnsOf(g) {
+		if idx >= len(r.Results) {
+			continue
+		}
+		if why := judge(r.Results[idx], r.Instr.Block(), 0); why != "" {
+			return why
+		}
+	}
+	return ""
+}
